@@ -21,7 +21,9 @@ const LIMIT: f64 = 3990.0;
 
 /// boundary-biased device-space coordinate
 fn coord(rng: &mut Rng, size: f64) -> f64 {
-    match rng.below(24) {
+    match rng.below(25) {
+        // the smallest subnormals: differences that underflow to zero when divided
+        24 => *rng.pick(&[f32::from_bits(1) as f64, -(f32::from_bits(1) as f64), f32::from_bits(3) as f64, -(f32::from_bits(0x7fffff) as f64)]),
         0 => 0.0,
         1 => -0.0,
         2 => f32::MIN_POSITIVE as f64,
@@ -854,6 +856,59 @@ fn run_local(ctx: &Ctx) -> Outcome {
         }
         let mut rng = ctx.rng("fuzz", i);
         let s = gen_seq(&mut rng);
+        run_seq_case(ctx, &s, want, st, &wd)
+    });
+    // A curve that reaches the leftmost (or topmost, ...) point of its path at its very end, arriving steeply
+    // from a control point just beside it: the forward-differenced edge may step a fraction of a cell beyond
+    // the path's bounding box on the last rows, which is where the coverage masks end. Mostly aliased.
+    run_cases(ctx, &mut out, SubSpec { name: "curves_ending_at_an_extreme_point_of_their_path", cases: ctx.n(30_000, 600_000) / ctx.scale_div.max(1), exhaustive: false, max_secs: if ctx.quick() { 30. } else { 600. } }, |i, want, st| {
+        if let Some(h) = &hb {
+            let _ = std::fs::write(h, format!("extreme {}\n", i));
+        }
+        let mut rng = ctx.rng("curves_ending_at_an_extreme_point_of_their_path", i);
+        let (w, h) = (rng.int(8, 40) as i32, rng.int(8, 32) as i32);
+        let q = |rng: &mut Rng, lo: f64, hi: f64| -> f32 { if rng.chance(0.5) { (rng.int((lo * 16.) as i64, (hi * 16.) as i64) as f32) / 16. } else { rng.range(lo, hi) as f32 } };
+        // half of the time the curve ends inside the first pixel row of the surface, coming from above it: that
+        // row is the first row of the coverage mask
+        let top_row = rng.chance(0.5);
+        let e = Point::new(q(&mut rng, 1., w as f64 * 0.6), if top_row { q(&mut rng, 0.05, 0.95) } else { q(&mut rng, -1., h as f64 * 0.5) });
+        let c = Point::new(e.x + q(&mut rng, 0.05, 1.5), e.y - if top_row { q(&mut rng, 0.3, 1.4) } else { q(&mut rng, 0.2, 2.5) });
+        let s0 = Point::new(e.x + q(&mut rng, 15., 60.), c.y - q(&mut rng, 1., 6.));
+        let back = Point::new(s0.x, e.y + q(&mut rng, 1., 4.));
+        let mut ops = vec![PathOp::MoveTo(s0)];
+        if rng.chance(0.7) {
+            ops.push(PathOp::QuadTo(c, e));
+        } else {
+            ops.push(PathOp::CubicTo(Point::new((s0.x + c.x) / 2., (s0.y + c.y) / 2.), c, e));
+        }
+        ops.push(PathOp::LineTo(back));
+        ops.push(PathOp::Close);
+        // the same shape turned: the extreme point may be the leftmost, rightmost, topmost or bottommost
+        let turn = rng.below(4);
+        let map = |p: Point| -> Point {
+            match turn {
+                0 => p,
+                1 => Point::new(w as f32 - p.x, p.y),
+                2 => Point::new(p.y, p.x),
+                _ => Point::new(p.y, h as f32 - p.x),
+            }
+        };
+        let ops: Vec<PathOp> = ops.iter().map(|o| match o {
+            PathOp::MoveTo(p) => PathOp::MoveTo(map(*p)),
+            PathOp::LineTo(p) => PathOp::LineTo(map(*p)),
+            PathOp::QuadTo(a, p) => PathOp::QuadTo(map(*a), map(*p)),
+            PathOp::CubicTo(a, b, p) => PathOp::CubicTo(map(*a), map(*b), map(*p)),
+            PathOp::Close => PathOp::Close,
+        }).collect();
+        let path = Path { ops, winding: if rng.chance(0.5) { Winding::EvenOdd } else { Winding::NonZero } };
+        let o = DrawOptions { blend_mode: if rng.chance(0.7) { BlendMode::SrcOver } else { random_mode(&mut rng) }, alpha: 1., antialias: if rng.chance(0.75) { AntialiasMode::None } else { AntialiasMode::Gray } };
+        let mut calls = Vec::new();
+        if rng.chance(0.2) {
+            calls.push(Call::Op(Op::PushClip(path.clone())));
+            calls.push(Call::Op(Op::PopClip));
+        }
+        calls.push(Call::Op(Op::Fill(path, SrcSpec::Solid(premul_pixel(&mut rng)), o)));
+        let s = Seq { w, h, ctor: rng.below(3) as u8, calls };
         run_seq_case(ctx, &s, want, st, &wd)
     });
     out
